@@ -2,7 +2,9 @@
 
 Proof: coq/C21 (an invariant of every reachable state of the object-table model, by induction
 over ALL histories, deallocation of any garbage set allowed at any moment).
-Tie: correspondence — random histories executed on the real cffi with gc.collect() after every
+Tie: (1) regenerated — C21/Gen.v is rewritten from _cffi_backend.c on every run (tp_traverse lists, statement
+order of cdatagcp_finalize, release table, ...; see c21_regen.py) and the model's edges / finalisation / release
+dispatch are defined from it; (2) correspondence — random histories executed on the real cffi with gc.collect() after every
 operation (reference cycles through Python objects and through destructor closures included);
 after every step the liveness of every object (weakrefs), every destructor/free call counter
 and the resize lock of every buffer source are compared with the model's prediction, and the
@@ -13,6 +15,8 @@ from lib.vlib import cnat, cbool, clist, copt
 
 import os
 import re
+
+from props import c21_regen
 
 ID = "C21"
 GEN = os.path.join(vlib.COQ, "C21", "Gen.v")
@@ -91,8 +95,12 @@ def translate_gen():
     return ("""(* C21/Gen.v — REGENERATED on every run by tools/props/c21.py:regen from
      /repo/src/c/_cffi_backend.c   (direct_from_buffer: every `goto errorN`, whether it is taken after
                                     PyObject_GetBuffer succeeded, and whether label errorN passes
-                                    PyBuffer_Release(view))
-   Do not edit: this committed copy is the snapshot used when the translator fails. *)
+                                    PyBuffer_Release(view); direct_newp: the DECREF on the failure path;
+                                    and, by tools/props/c21_regen.py, the Py_VISIT lists of the three
+                                    tp_traverse functions, the statement order of cdatagcp_finalize,
+                                    gcp_finalize, cdatagcp_dealloc, the None branch of b_gcp,
+                                    explicit_release_case and the switch of cdata_exit)
+   Do not edit: this committed copy is the snapshot of the unchanged tree. *)
 From Coq Require Import List.
 Import ListNotations.
 
@@ -104,14 +112,19 @@ Definition gen_frombuf_paths : list (nat * bool * bool) :=
 (* direct_newp: the error path after a failed initializer conversion releases the freshly made
    cdata (`if (convert_from_object(...) < 0) { Py_DECREF(cd); return NULL; }`) *)
 Definition gen_newp_fail_decref : bool := %s.
-""" % ("; ".join("(%d, %s, %s)" % (t, cbool(a), cbool(r)) for t, a, r in paths), cbool(decref)))
+""" % ("; ".join("(%d, %s, %s)" % (t, cbool(a), cbool(r)) for t, a, r in paths), cbool(decref))
+            + c21_regen.translate(src))
 
 
 def regen(ctx):
     try:
         text = translate_gen()
-    except (Untranslatable, OSError) as e:
+    except (Untranslatable, c21_regen.Untranslatable, OSError) as e:
+        # fail closed: the committed snapshot stays in place so that the Coq files still build, but the
+        # facts it states are NOT those of this source tree any more - that is a broken obligation
         ctx.translator("C21/Gen.v", "fallback: %s" % e)
+        ctx.obligation_broken("C21/Gen.v: the source no longer has the shape the translator understands",
+                              "%s\n(the theorems were re-checked against the snapshot of the unchanged tree only)" % e)
         return
     old = open(GEN).read() if os.path.exists(GEN) else None
     if old == text:
@@ -250,7 +263,8 @@ def gen_history(rng, length, template=None):
             if c:
                 ys = held(["KPy"])
                 y = rng.choice(ys) if ys and rng.random() < 0.5 else None
-                op = ["OGc", rng.choice(c), m.fresh_addr(), y]
+                # the destructor may act on its own wrapper while it runs: 1 = ffi.release(w), 2 = ffi.gc(w, None)
+                op = ["OGc", rng.choice(c), m.fresh_addr(), y, rng.choice([0, 0, 0, 1, 2])]
         elif r < 0.40:
             op = ["OGcNone", rng.choice(held(["KGcp"]) or h)]
         elif r < 0.52:
@@ -295,7 +309,7 @@ def gen_history(rng, length, template=None):
 
 
 TEMPLATES = ["handle", "inner-gc", "frombuf", "handle-live-dtor", "inner-gc-released", "two-wrappers",
-             "frombuf-fail", "new-fail"]
+             "frombuf-fail", "new-fail", "reentrant", "release-errors"]
 
 
 def cycle_template(rng, m, name):
@@ -306,6 +320,36 @@ def cycle_template(rng, m, name):
     base = len(m.kind)
     y = base
     ops = [["ONewPy", m.fresh_addr()]]
+    if name == "reentrant":
+        # destructors that release / cancel their own wrapper while they run: released once or twice, through
+        # with or ffi.release, then dropped; one wrapper only dropped (the weak reference is dead by then)
+        n = base
+        ops = [["ONew", m.fresh_addr()]]
+        for j, re in enumerate([1, 2, 1, 2]):
+            w = base + 1 + j
+            ops.append(["OGc", n, m.fresh_addr(), None, re])
+            if j < 3:
+                ops.append(["ORelease", w, rng.random() < 0.5])
+            if j == 0:
+                ops.append(["ORelease", w, rng.random() < 0.5])
+            if j == 1:
+                ops.append(["OGcNone", w])
+        tail = list(range(base, base + 5))
+        rng.shuffle(tail)
+        return ops + [["ODrop", i] for i in tail]
+    if name == "release-errors":
+        # every kind under ffi.release / with, and gc(x, None) on every kind: ValueError for the struct object
+        # p[0] and a handle, TypeError for a non-cdata, nothing changes
+        st, p, h, f, a, w = base + 1, base + 2, base + 3, base + 4, base + 5, base + 6
+        ops += [["ONewStruct", m.fresh_addr(), m.fresh_addr()], ["OAlias", p], ["ONewHandle", y, m.fresh_addr()],
+                ["OFromBuffer", y, m.fresh_addr()], ["ONew", m.fresh_addr()], ["OGc", a, m.fresh_addr(), None, 0]]
+        todo = [["ORelease", i, v] for i in (y, st, p, h, a) for v in (False, True)] + \
+               [["OGcNone", i] for i in (y, st, p, h, f, a)]
+        rng.shuffle(todo)
+        ops += todo + [["ORelease", f, rng.random() < 0.5], ["OGcNone", w], ["ORelease", w, False]]
+        tail = [y, st, p, h, f, a, w]
+        rng.shuffle(tail)
+        return ops + [["ODrop", i] for i in tail]
     if name == "new-fail":
         # rejected initialisers, every variant, with and without a free function, around a live allocation
         ops = [["OAllocNew", m.fresh_addr(), m.fresh_addr(), True]]
@@ -360,7 +404,7 @@ def generate(ctx):
     for i in range(ctx.n(70, 450)):
         out.append(dict(kind="history", ops=gen_history(rng, rng.choice([4, 8, 12, 16, 24]))))
     # directed: cycles through the origobj edge of a wrapper (after a random prefix)
-    for i in range(ctx.n(18, 120)):
+    for i in range(ctx.n(20, 120)):
         out.append(dict(kind="history", template=TEMPLATES[i % len(TEMPLATES)],
                         ops=gen_history(rng, rng.choice([0, 0, 2, 5, 9]), TEMPLATES[i % len(TEMPLATES)])))
     return out
@@ -392,6 +436,28 @@ def op_literal(op):
     if t in ("OSetRef", "OFromBuffer", "ONewHandle"):
         return "%s %d %d" % (t, op[1], op[2])
     raise ValueError(op)
+
+
+def op2_literals(ops):
+    """the history as a list of Model.op2 literals: a release of an ffi.gc wrapper whose destructor acts on
+    its own wrapper is OReleaseRe, everything else OBase"""
+    m, re_of, out = Mirror(), {}, []
+    for o in ops:
+        created, _ = m.apply(o)
+        if o[0] == "OGc" and created and len(o) > 4 and o[4]:
+            re_of[created[0]] = o[4]
+        if o[0] == "ORelease" and re_of.get(o[1]):
+            out.append("OReleaseRe %d %s" % (o[1], {1: "RReleaseSelf", 2: "RGcNoneSelf"}[re_of[o[1]]]))
+        else:
+            out.append("OBase (%s)" % op_literal(o))
+    return out
+
+
+EXC_CODE = {None: 0, "ValueError": 1, "TypeError": 2}
+
+
+def observed_outs(ops, results):
+    return [EXC_CODE.get(r.get("exc"), 9) if o[0] in ("ORelease", "OGcNone") else 0 for o, r in zip(ops, results)]
 
 
 def trace_literal(trace):
@@ -585,20 +651,28 @@ def evaluate(ctx, cases, asan=None):
             ctx.violation(small, "; ".join((msg or bad)[:3]))
         # the model on the same history: OCollectAuto after every operation
         inter = []
-        for o in ops:
-            inter += [op_literal(o), "OCollectAuto"]
-        coqcases.append(("(%s : list op)" % clist(inter),
-                         "(%s : list (list (bool * nat * bool)))" % trace_literal(r["trace"])))
+        for lit in op2_literals(ops):
+            inter += [lit, "OBase OCollectAuto"]
+        codes = observed_outs(ops, r["results"])
+        for o, code in zip(ops, codes):
+            if o[0] in ("ORelease", "OGcNone"):
+                ctx.hist("result", "%s:%s" % (o[0], {0: "ok-or-skipped", 1: "ValueError", 2: "TypeError"}.get(code, "other")))
+            if o[0] == "OGc" and len(o) > 4 and o[4]:
+                ctx.hist("reentrant-destructor", {1: "release(w)", 2: "gc(w, None)"}[o[4]])
+        coqcases.append(("(%s : list op2)" % clist(inter),
+                         "((%s, %s) : list (list (bool * nat * bool)) * list nat)"
+                         % (trace_literal(r["trace"]), clist([str(x) for x in codes]))))
         owner.append(c)
-    eqb = "list_eqb (list_eqb (pair_eqb (pair_eqb Bool.eqb Nat.eqb) Bool.eqb))"
-    fexpr = ("fun ops => (fix odd (l : list (list (bool * nat * bool))) := match l with "
-             "| _ :: x :: l' => x :: odd l' | _ => [] end) (trace init ops)")
+    eqb = "pair_eqb (list_eqb (list_eqb (pair_eqb (pair_eqb Bool.eqb Nat.eqb) Bool.eqb))) (list_eqb Nat.eqb)"
+    fexpr = ("fun ops => ((fix odd (l : list (list (bool * nat * bool))) := match l with "
+             "| _ :: x :: l' => x :: odd l' | _ => [] end) (trace2 init ops), "
+             "(fix even (l : list nat) := match l with | x :: _ :: l' => x :: even l' | _ => [] end) (outs2 init ops))")
     badi, outs, err = vlib.coq_mismatches(["C21.Model"], fexpr, eqb, coqcases, shard=8, jobs=10)
     if err:
         ctx.obligation_broken("C21 model evaluation", err)
     for i in badi:
-        ctx.mismatch(owner[i], "model trace %s, observed %s" % (str(outs.get(i))[:600], coqcases[i][1][:600]),
-                     "C21.Model.trace vs real cffi history")
+        ctx.mismatch(owner[i], "model (trace, results) %s, observed %s" % (str(outs.get(i))[:600], coqcases[i][1][:600]),
+                     "C21.Model.trace2/outs2 vs real cffi history")
     ctx.extra["model_evaluations"] = len(coqcases)
     ctx.sample(cases[0])
 
@@ -609,14 +683,20 @@ def run(ctx):
         "custom-allocator struct pointer with or without free / Python object; ffi.gc with a destructor whose closure "
         "may refer to a Python object; gc(w, None); release or with-exit (also repeated, also on pointers, aliases, "
         "non-releasable kinds); p[0] alias; extra variable; del; attribute reference (cycles); from_buffer; new_handle; "
-        "from_handle), gc.collect() after every operation, everything dropped at the end. Non-trivial = history with "
+        "from_handle; ffi.gc destructors that call ffi.release(w) or ffi.gc(w, None) on their own wrapper while they "
+        "run), gc.collect() after every operation, everything dropped at the end; the exception class of every "
+        "release and gc(x, None) is compared with Model.out; directed templates: origobj cycles, failing from_buffer / "
+        "ffi.new, re-entrant destructors, release and gc(x, None) on every kind. Non-trivial = history with "
         "a destructor, allocator, buffer view or handle; distinct by operation list.")
     ctx.assumptions += [
-        "hand-written model C21/Model.v (tied by this run's differential test, not by translation)",
+        "model C21/Model.v: reference edges, finalisation, gc(w, None) and release dispatch defined from tables "
+        "regenerated from _cffi_backend.c (C21/Gen.v); object creation and the runtime events hand-written "
+        "(tied by this run's differential test)",
         "runtime hypothesis R1: CPython frees only garbage sets (no variable and no outside object refers to a member), "
         "each object once; tp_finalize+tp_clear+tp_dealloc and tp_dealloc alone have the same net effect on the modelled state",
         "runtime hypothesis R2: an allocation never returns the address of a live object",
-        "runtime hypothesis R3: destructors neither resurrect nor use the objects being freed",
+        "runtime hypothesis R3: destructors neither resurrect nor use the objects being freed, except that during an "
+        "explicit release they may release / cancel their own wrapper (C21_reentrant_release_same)",
         "gc.collect() after every step makes CPython free exactly the unreachable set (Model.unreachable)"]
     cases = generate(ctx)
     evaluate(ctx, cases)
@@ -628,16 +708,50 @@ def run(ctx):
 
 MANIFEST = dict(
     technique="Coq proof by induction over all operation histories (object-table model, invariant incl. 'destructor "
-              "field is Some iff not yet run, not cancelled, not released, alive') + differential correspondence on "
-              "random histories with gc.collect() after every step",
-    text="Proof: for every history of creations, aliasing, ffi.gc, gc(p, None), release/with, holds, drops, attribute "
-         "references, from_buffer, handles and deallocation of any garbage set at any time: each destructor/free runs "
-         "at most once, exactly once by the time its wrapper is released or dead, not before, never after gc(p, None); "
-         "release is idempotent; a from_buffer view keeps its source alive and locked exactly until released or dead; "
-         "the struct behind ffi.new('struct *') lives while p or p[0] does; from_handle on a live handle's address returns "
-         "the object given to new_handle; every new_handle call makes a new handle object, and live handles have distinct "
-         "addresses under runtime hypothesis R2 (the allocator never returns memory in use); no live object refers to "
-         "a dead one; whatever the collector frees is finalised.",
-    note="Runtime hypotheses R1-R3 (CPython frees only garbage, once; fresh addresses; destructors do not resurrect) are "
-         "guards of the model's runtime events. Callbacks (the third owning kind) are C29's subject.",
+              "field is Some iff not yet run, not cancelled, not released, alive'); the model's reference edges, "
+              "finalisation, gc(w, None) and release dispatch are DEFINED FROM tables regenerated from "
+              "_cffi_backend.c on every run (C21/Gen.v, fail closed); differential correspondence on random "
+              "histories with gc.collect() after every step (object liveness, destructor counts, resize locks AND "
+              "the exception class of every release / gc(x, None))",
+    text="Proof (coq/C21/Props.v, 28 theorems, all closed): for every history of creations, aliasing, ffi.gc, gc(p, None), "
+         "release/with, holds, drops, attribute references, from_buffer, handles and deallocation of any garbage set at "
+         "any time: each destructor/free runs at most once (C21_destructor_at_most_once), exactly once by the time its "
+         "wrapper is released or dead (C21_destructor_exactly_once), not before (C21_destructor_not_early), never after "
+         "gc(p, None) (C21_never_after_cancel, C21_called_once_stays); releasing the pointer of an allocator struct frees "
+         "the allocation (C21_release_struct_ptr_frees); release is idempotent (C21_release_idempotent); a from_buffer "
+         "view keeps its source alive and locked exactly until released or dead (C21_frombuf_locks_source, "
+         "C21_source_unlocked_when_no_view); a FAILED from_buffer leaves no export behind "
+         "(C21_frombuf_error_paths_release = the regenerated obligation on direct_from_buffer's goto labels, "
+         "C21_failed_from_buffer_is_pure); a rejected initializer through a custom allocator frees the block exactly "
+         "once (C21_failed_alloc_new_frees, from the regenerated Py_DECREF on direct_newp's error path; "
+         "C21_failed_new_is_pure is definitional); the struct behind ffi.new('struct *') lives while p or p[0] does "
+         "(C21_struct_memory_kept); from_handle on a live handle's address returns the object given to new_handle "
+         "(C21_from_handle_correct); every new_handle call makes a new handle object (C21_new_handle_fresh) and live "
+         "handles have distinct addresses under runtime hypothesis R2 (C21_live_handles_distinct_addresses_under_R2); "
+         "no live object refers to a dead one (C21_references_alive); whatever the collector frees is finalised "
+         "(C21_collect_frees_members). "
+         "Regenerated tables spelled out (proved by computation on Gen.v, so an edited Py_VISIT list, a reordered "
+         "cdatagcp_finalize, a changed explicit_release_case / cdata_exit case breaks them and every theorem above): "
+         "C21_model_edges_are_tp_traverse, C21_finalize_clears_both_calls_once, C21_gc_none_clears_destructor_only, "
+         "C21_finalize_order_facts, C21_release_dispatch_is_cdata_exit. "
+         "Results: C21_release_error_iff_kind (release of a held object: ValueError iff handle or the struct object "
+         "p[0], TypeError iff not a cdata, and a failed release changes nothing), C21_gcnone_error_iff_kind. "
+         "Re-entrant destructors: C21_reentrant_release_same (a history whose destructors release / cancel their own "
+         "wrapper while running reaches the same state as the plain history, because cdatagcp_finalize clears the "
+         "fields before the call), C21_at_most_once_reentrant.",
+    note="Regenerated from the source on every run (tools/props/c21.py, c21_regen.py; anything outside the understood "
+         "statement shapes = broken obligation, the committed Gen.v is only the unchanged tree's snapshot): error labels of "
+         "direct_from_buffer, DECREF on direct_newp's failure path, Py_VISIT lists of cdataowninggc_traverse / "
+         "cdatafrombuf_traverse / cdatagcp_traverse with their tp_traverse slots, the struct pointer's reference "
+         "(store in direct_newp + Py_DECREF in cdataowning_dealloc), fields cleared by cdatagcp_finalize and whether "
+         "before the call, call sites in gcp_finalize, cdatagcp_dealloc -> gcp_finalize, the None branch of b_gcp, "
+         "explicit_release_case, the switch of cdata_exit, b_release / __enter__ / __exit__ wiring. "
+         "Hand-modelled and correspondence-only: object creation (ffi.new, allocators, new_handle, from_buffer success "
+         "path), INCREF sites, that gc.collect() frees exactly the unreachable set, the api.py front end; tp_clear "
+         "(cdataowninggc_clear, cdatafrombuf_clear) and callbacks (C29) are not in the model; the compiled FFI of "
+         "ffi_obj.c is not exercised (the worker uses cffi.FFI()). Runtime hypotheses as guards of the model's runtime "
+         "events: R1 CPython frees only garbage, once; R2 fresh addresses; R3 destructors do not resurrect or use the "
+         "objects being freed EXCEPT releasing / cancelling their own wrapper during an explicit release (modelled, "
+         "finalize_re); re-entrancy during a cyclic-GC tp_finalize is not modelled. [own_is_struct] identifies the "
+         "struct object p[0] by the position of its pointer in the object table (a model convention).",
     design_ref="DESIGN.md §4 C21")
